@@ -212,6 +212,7 @@ type Server struct {
 	Role            string            // master | slave
 	MasterAddr      string
 	ReadOnlyReplica bool
+	ExpireAfterMs   bool // Redis semantics of the expiry instant: a key lives through its expiry millisecond (PTTL may be 0)
 	AZ              string
 
 	conns          []*Conn
